@@ -43,6 +43,8 @@ type base struct {
 	k    *simsync.Kernel
 	t    *simsync.Tape
 	prop string
+	// c14: the run is made on behalf of property C14 (see violate).
+	c14 bool
 	// faultFree disables every fault option for the whole run.
 	faultFree bool
 	// faulted records, per actor name, that a storage fault was injected
@@ -60,6 +62,24 @@ func (b *base) faultWeight() int {
 // violate reports a violation of the property this run checks; rules of the
 // other property are only counted.
 func (b *base) violate(rule, msg string) {
+	if b.c14 {
+		// The same histories also decide C14 for the file allocator: only
+		// the kernel-level rules (a call that never returns, a mutex left
+		// held, a panic) count, under C14's name.
+		switch rule {
+		case "C16/call-never-returned", "C17/call-never-returned":
+			b.k.Violate("C14/call-never-returned", "[pool-backed files] "+msg)
+		case "C16/lock-held-at-idle", "C17/lock-held-at-idle":
+			b.k.Violate("C14/mutex-held-at-idle", "[pool-backed files] "+msg)
+		default:
+			if len(rule) > 6 && rule[:6] == "panic:" {
+				b.k.Violate(rule, msg)
+			} else {
+				b.r.Count("other_property_rule:"+rule, 1)
+			}
+		}
+		return
+	}
 	if len(rule) > 4 && rule[:4] == b.prop+"/" || (len(rule) > 6 && rule[:6] == "panic:") {
 		b.k.Violate(rule, msg)
 		return
